@@ -137,13 +137,25 @@ def execute(ctx, case):
     if case["grouped"]:
         s = GroupScores(pos, neg, pos_groups=rng.choice(["a", "b"], len(pos)), neg_groups=rng.choice(["a", "b"], len(neg)), score_class=sc, equal_class=ec)
     else:
-        s = Scores(pos, neg, nb_easy_pos=case["ep"], nb_easy_neg=case["en"], score_class=sc, equal_class=ec)
+        cls = Scores
+        if case["_seed"] % 4 == 0:
+            # a user-defined subclass that overrides a metric of the base class: names are resolved on the object's own class, also
+            # for the samples (which the inherited sampler builds as plain Scores)
+            class MarginScores(Scores):
+                def fnr(self, threshold):
+                    return 0.5 * Scores.fnr(self, threshold) + 0.25
+
+                def tar(self, threshold):
+                    return 0.5 * Scores.tpr(self, threshold)
+
+            cls = MarginScores
+        s = cls(pos, neg, nb_easy_pos=case["ep"], nb_easy_neg=case["en"], score_class=sc, equal_class=ec)
     mname = case["metric"]
     seen_kwargs = []
     if mname == "fnr":
-        metric, kw, fn = "fnr", {"threshold": th}, lambda x: x.fnr(th)
+        metric, kw, fn = "fnr", {"threshold": th}, lambda x: type(s).fnr(x, th)
     elif mname == "tpr_alias":
-        metric, kw, fn = "tar", {"threshold": th}, lambda x: x.tpr(th)
+        metric, kw, fn = "tar", {"threshold": th}, lambda x: type(s).tar(x, th)
     elif mname == "eer":
         metric, kw, fn = "eer", {}, lambda x: np.asarray(x.eer())
     elif mname == "thr":
